@@ -2,6 +2,7 @@ package main
 
 import (
 	"fmt"
+	"go/types"
 	"os"
 	"path/filepath"
 	"sort"
@@ -786,5 +787,41 @@ func LoadContracts(P *Program, specDir string) *Contracts {
 			C.ParseContractText(filepath.Base(f), string(b))
 		}
 	}
+	C.validateBindings(P)
 	return C
+}
+
+// validateBindings: every contract must name an existing function / interface method; an orphan
+// contract is a hard error (it would otherwise be silently ignored).
+func (C *Contracts) validateBindings(P *Program) {
+	for k, ct := range C.Funcs {
+		if fn := P.Funcs[k]; fn == nil || len(fn.Blocks) == 0 {
+			C.Errors = append(C.Errors, fmt.Sprintf("%s: contract for unknown function %s", ct.Origin, k))
+		}
+	}
+	for k, ct := range C.Ifaces {
+		parts := strings.Split(k, ".")
+		ok := false
+		if len(parts) == 3 {
+			if pkg := P.pkgByShort(parts[0]); pkg != nil {
+				if tn, isT := pkg.Scope().Lookup(parts[1]).(*types.TypeName); isT {
+					if it, isI := tn.Type().Underlying().(*types.Interface); isI {
+						for i := 0; i < it.NumExplicitMethods(); i++ {
+							if it.ExplicitMethod(i).Name() == parts[2] {
+								ok = true
+							}
+						}
+					}
+				}
+			}
+		}
+		if !ok {
+			C.Errors = append(C.Errors, fmt.Sprintf("%s: interface contract %s does not name a method declared in that interface", ct.Origin, k))
+		}
+	}
+	for k, l := range C.Loops {
+		if fn := P.Funcs[l.Key]; fn == nil {
+			C.Errors = append(C.Errors, fmt.Sprintf("loop spec %s: unknown function", k))
+		}
+	}
 }
